@@ -75,8 +75,8 @@ def check(pid, tier="quick", seed=None, only_cases=None):
         broken.append("generated-table anchor: " + a)
     for e in merrs:
         st = core.enclosing_statement(e["file"], e["line"]) or "?"
-        in_cone = any(e["file"].endswith(c) for c in cone) or e["file"] == "?" or e["file"].endswith("Run/Extract_%s.v" % pid)
-        if in_cone:
+        # make only builds what the property's targets depend on: every error it reports is in the property's cone
+        if True:
             broken.append("proof obligation %s (%s:%d): %s" % (st, e["file"], e["line"], e["message"][:200]))
     lint = core.lint(cone)
     for b in lint:
